@@ -40,6 +40,11 @@ def alphabet(rng, limited):
         ops.append((f"evalH({rn})", lambda w, Rq=Rq: np.asarray(w.evaluate(spherical.Modes(mw.copy(), spin_weight=-1, ell_min=0, ell_max=4), Rq, horner=True))))
         ops.append((f"evalM({rn})", lambda w, Rq=Rq: np.asarray(w.evaluate(spherical.Modes(np.concatenate([mw, np.zeros(36 - 25)]) if False else helpers_pad(mw, 5), spin_weight=-1, ell_min=0, ell_max=5), Rq, horner=False))))
         ops.append((f"H({rn})", lambda w, b=beta: w.H(b, w.Hwedge, w.Hv, w.Hextra).copy()))
+        if rn in ("generic", "pole-"):
+            # degenerate but legitimate requests: modes that contain no ell >= |s| (the zero function), an ell_max = 0 object
+            ops.append((f"evalH-empty({rn})", lambda w, Rq=Rq: np.asarray(w.evaluate(spherical.Modes(np.zeros(4, dtype=complex), spin_weight=-3 if not limited else -1, ell_min=0, ell_max=1) if not limited else spherical.Modes(np.zeros(1, dtype=complex), spin_weight=0, ell_min=0, ell_max=0), Rq, horner=True))))
+            ops.append((f"evalM-empty({rn})", lambda w, Rq=Rq: np.asarray(w.evaluate(spherical.Modes(np.zeros(4, dtype=complex), spin_weight=-3 if not limited else -1, ell_min=0, ell_max=1) if not limited else spherical.Modes(np.zeros(1, dtype=complex), spin_weight=0, ell_min=0, ell_max=0), Rq, horner=False))))
+            ops.append((f"evalH-const({rn})", lambda w, Rq=Rq: np.asarray(w.evaluate(spherical.Modes(np.array([1.5 - 2j]), spin_weight=0, ell_min=0, ell_max=0), Rq, horner=True))))
         if rn in ("generic", "near-pole", "pole-"):
             # explicit workspaces whose previous content is arbitrary (np.empty garbage may be NaN/inf): the result may not depend on it
             def dirty(w, val):
